@@ -62,6 +62,29 @@ fn quote_json(s: &str) -> String {
     o
 }
 
+fn quote_toml(s: &str) -> String {
+    let mut o = String::from("\"");
+    for ch in s.chars() {
+        match ch {
+            '"' => o.push_str("\\\""),
+            '\\' => o.push_str("\\\\"),
+            c if (c as u32) < 0x20 || c as u32 == 0x7f => o.push_str(&format!("\\u{:04X}", c as u32)),
+            c => o.push(c),
+        }
+    }
+    o.push('"');
+    o
+}
+
+/// front-end by `fmt`: 0 serde_yaml, 1 serde_json, 2 toml (integers reach the visitor as i64 there)
+fn parse_doc<T: serde::de::DeserializeOwned>(fmt: u128, doc: &str) -> Result<T, String> {
+    match fmt {
+        0 => serde_yaml::from_str(doc).map_err(|e| e.to_string()),
+        1 => serde_json::from_str(doc).map_err(|e| e.to_string()),
+        _ => toml::from_str(doc).map_err(|e| e.to_string()),
+    }
+}
+
 fn run(case: &Val) -> Val {
     let c = case.l();
     let kind = c[0].n();
@@ -72,7 +95,7 @@ fn run(case: &Val) -> Val {
         1 => c[2].str(),
         2 => {
             let s = text_of(&c[2]);
-            if fmt == 0 { quote_yaml(&s) } else { quote_json(&s) }
+            match fmt { 0 => quote_yaml(&s), 1 => quote_json(&s), _ => quote_toml(&s) }
         }
         3 => {
             assert!(fmt == 0, "plain scalars are YAML only");
@@ -88,10 +111,10 @@ fn run(case: &Val) -> Val {
         1 => "interval",
         _ => "refresh_rate",
     };
-    let doc = if fmt == 0 {
-        format!("{}: {}\n", key, scalar)
-    } else {
-        format!("{{\"{}\": {}}}", key, scalar)
+    let doc = match fmt {
+        0 => format!("{}: {}\n", key, scalar),
+        1 => format!("{{\"{}\": {}}}", key, scalar),
+        _ => format!("{} = {}\n", key, scalar),
     };
     if kind == 2 {
         fn dur(d: Option<std::time::Duration>) -> Val {
@@ -126,7 +149,7 @@ fn run(case: &Val) -> Val {
         let name = if kind == 0 { "size" } else { "time" };
         let d2 = doc.clone();
         let built = std::panic::catch_unwind(move || {
-            let tree = if fmt == 0 { serde_yaml::from_str(&d2).map_err(|e| e.to_string()) } else { serde_json::from_str(&d2).map_err(|e| e.to_string()) };
+            let tree = parse_doc(fmt, &d2);
             match tree {
                 Ok(t) => log4rs::config::Deserializers::default()
                     .deserialize::<dyn Trigger>(name, t)
@@ -159,11 +182,7 @@ fn run(case: &Val) -> Val {
         }
     }
     if kind == 0 {
-        let r: Result<SizeTriggerConfig, String> = if fmt == 0 {
-            serde_yaml::from_str(&doc).map_err(|e| e.to_string())
-        } else {
-            serde_json::from_str(&doc).map_err(|e| e.to_string())
-        };
+        let r: Result<SizeTriggerConfig, String> = parse_doc(fmt, &doc);
         match r {
             Ok(cfg) => {
                 // "SizeTriggerConfig { limit: 123 }"
@@ -180,11 +199,7 @@ fn run(case: &Val) -> Val {
             Err(_) => Val::L(vec![Val::N(0)]),
         }
     } else {
-        let r: Result<TimeTriggerConfig, String> = if fmt == 0 {
-            serde_yaml::from_str(&doc).map_err(|e| e.to_string())
-        } else {
-            serde_json::from_str(&doc).map_err(|e| e.to_string())
-        };
+        let r: Result<TimeTriggerConfig, String> = parse_doc(fmt, &doc);
         match r {
             Ok(cfg) => {
                 let (iv, modulate, delay) = cfg.verif_parts();
